@@ -54,7 +54,8 @@ def exp(x, max_order=15):
         return result
 
     # scale by power of 2 so that its norm is < 1
-    max_val = int(np.max(np.abs(x.value)))
+    # (the sum of the absolute coefficients bounds the norm; the largest coefficient alone does not)
+    max_val = int(np.sum(np.abs(x.value)))
     scale = 1
     if max_val > 1:
         max_val <<= 1
